@@ -10,6 +10,9 @@ static ENABLED: AtomicBool = AtomicBool::new(false);
 static LIVE: AtomicUsize = AtomicUsize::new(0);
 static PEAK: AtomicUsize = AtomicUsize::new(0);
 static COUNT: AtomicUsize = AtomicUsize::new(0);
+/// Blocks currently allocated (alloc minus dealloc; realloc keeps the count).
+static BLOCKS: std::sync::atomic::AtomicIsize = std::sync::atomic::AtomicIsize::new(0);
+static PEAK_BLOCKS: std::sync::atomic::AtomicIsize = std::sync::atomic::AtomicIsize::new(0);
 /// Allocations of at least this many bytes are refused (0 = never): used by
 /// one probe child to model a process that cannot get large blocks.
 static REFUSE_AT: AtomicUsize = AtomicUsize::new(0);
@@ -30,6 +33,8 @@ unsafe impl GlobalAlloc for Counting {
         let p = System.alloc(l);
         if !p.is_null() && ENABLED.load(Ordering::Relaxed) {
             add(l.size());
+            let b = BLOCKS.fetch_add(1, Ordering::Relaxed) + 1;
+            PEAK_BLOCKS.fetch_max(b, Ordering::Relaxed);
         }
         p
     }
@@ -38,6 +43,7 @@ unsafe impl GlobalAlloc for Counting {
         if ENABLED.load(Ordering::Relaxed) {
             // saturating: blocks allocated before counting was enabled
             let _ = LIVE.fetch_update(Ordering::Relaxed, Ordering::Relaxed, |v| Some(v.saturating_sub(l.size())));
+            BLOCKS.fetch_sub(1, Ordering::Relaxed);
         }
     }
     unsafe fn realloc(&self, p: *mut u8, l: Layout, new: usize) -> *mut u8 {
@@ -75,7 +81,17 @@ pub fn count() -> usize {
     COUNT.load(Ordering::SeqCst)
 }
 
+/// Number of live blocks (may be negative relative to blocks allocated before counting began).
+pub fn blocks() -> isize {
+    BLOCKS.load(Ordering::SeqCst)
+}
+
+pub fn peak_blocks() -> isize {
+    PEAK_BLOCKS.load(Ordering::SeqCst)
+}
+
 /// Restart peak tracking from the current live size.
 pub fn reset_peak() {
+    PEAK_BLOCKS.store(BLOCKS.load(Ordering::SeqCst), Ordering::SeqCst);
     PEAK.store(LIVE.load(Ordering::SeqCst), Ordering::SeqCst);
 }
